@@ -54,13 +54,13 @@ type Partial struct {
 
 // Ctx is handed to a check's Run function.
 type Ctx struct {
-	Prop    string
-	Tier    string
-	Seed    uint64
-	Shard   int
-	NShards int
-	Race    bool   // binary was built with -race
-	WorkDir string // scratch directory for this shard (outside /repo and /verif)
+	Prop      string
+	Tier      string
+	Seed      uint64
+	Shard     int
+	NShards   int
+	Race      bool   // binary was built with -race
+	WorkDir   string // scratch directory for this shard (outside /repo and /verif)
 	SharedDir string // directory shared with the parent process (files for the Post step)
 
 	mu         sync.Mutex
